@@ -9,11 +9,13 @@ pub mod c04;
 pub mod c05;
 pub mod c08;
 pub mod c10;
+pub mod c11;
 pub mod c12;
 pub mod c13;
 pub mod c14;
 pub mod common;
 pub mod dynamic;
+pub mod c16;
 pub mod c17;
 
 pub fn run(ctx: &Ctx) -> i32 {
@@ -25,9 +27,11 @@ pub fn run(ctx: &Ctx) -> i32 {
         "C05" => c05::run(ctx),
         "C08" => c08::run(ctx),
         "C10" => c10::run(ctx),
+        "C11" => c11::run(ctx),
         "C12" => c12::run(ctx),
         "C13" => c13::run(ctx),
         "C14" => c14::run(ctx),
+        "C16" => c16::run(ctx),
         "C17" => c17::run(ctx),
         other => {
             eprintln!("rvmon: no monitor for property {other}");
